@@ -262,6 +262,12 @@ def unused_file(rng, idx):
                 uses.append((rng.choice(["constfield", "constcmp", "constdim", "constassign", "constarg", "constret", "constanno"]), cn))
             elif imports[-1][2]:
                 imports[-1] = (imports[-1][0], cn, False)
+    # the same single-type import written on two lines (a merge leftover): both lines are imports of that name, both go when
+    # it is unused, both stay when it is used
+    if imports and rng.random() < 0.15:
+        dup = rng.choice([i for i in imports if " static " not in i[0] and not i[0].endswith(".*;")] or [None])
+        if dup is not None:
+            imports.insert(rng.randrange(len(imports) + 1), dup)
     lines = []
     if rng.random() < 0.3:
         lines.append("// header é — comment")
